@@ -278,7 +278,7 @@ prop('C16', units=['fmt', 'insig', 'round', 'config'], level='proof',
      level_note=_NOTE_COMMON + ' Vec helpers fill_slice(&mut v[..n]) and copy_within(..a, i) are replaced by shim helpers with assumed contracts (R6).',
      technique=_TECH)
 
-prop('C18', units=['pow10', 'core', 'canon', 'scale', 'digits'], level='proof',
+prop('C18', units=['pow10', 'core', 'canon', 'scale', 'digits', 'prec'], level='proof',
      hooks=[_h.kani_hook(['a1_digit_estimate', 'diff_i64'])],
      level_text=('Verus proves field-exact postconditions for constructors, accessors and reference views (with the reference view\'s sign/magnitude '
                  'invariant as a checked type invariant), 10^pow for all three algorithms of ten_to_the_uint and every pow, digits() == exact decimal digit count '
